@@ -23,15 +23,31 @@ import (
 )
 
 type branchDesc struct {
-	Progs    []*gen.Block `json:"progs"`
-	DeclSeed int          `json:"declSeed"`
-	Layout   layoutSpec   `json:"layout"`
+	// SelfLoops: number of tasks that get a sequence flow back to themselves
+	// (sourceRef == targetRef: legal, e.g. a retry flow)
+	SelfLoops int          `json:"selfLoops,omitempty"`
+	Progs     []*gen.Block `json:"progs"`
+	DeclSeed  int          `json:"declSeed"`
+	Layout    layoutSpec   `json:"layout"`
 }
 
 func checkBranch(d branchDesc) (sym, det, x string) {
 	db := schema.NewDefinitionsBuilder()
 	for i, blk := range d.Progs {
-		prog := &gen.Program{G: gen.Lower(blk).G, DefaultLang: "expr", DeclSeed: d.DeclSeed}
+		g := gen.Lower(blk).G
+		if d.SelfLoops > 0 {
+			left := d.SelfLoops
+			for _, n := range g.Nodes {
+				if n.Kind == gen.KTask && left > 0 {
+					left--
+					f := &gen.Flow{ID: fmt.Sprintf("selfloop_%s", n.ID), Src: n.ID, Dst: n.ID}
+					g.Flows = append(g.Flows, f)
+					n.Out = append(n.Out, f.ID)
+					n.In = append(n.In, f.ID)
+				}
+			}
+		}
+		prog := &gen.Program{G: g, DefaultLang: "expr", DeclSeed: d.DeclSeed}
 		src := prog.XML()
 		defs, err := schema.Parse([]byte(src))
 		if err != nil {
@@ -76,6 +92,7 @@ func TestC19LayoutBranching(t *testing.T) {
 		var d branchDesc
 		d.Progs = append(d.Progs, gen.GenProgram(rt, gen.GenOpts{MaxDepth: 3, MaxNodes: 14}))
 		d.DeclSeed = rapid.IntRange(0, 50).Draw(rt, "declSeed")
+		d.SelfLoops = rapid.SampledFrom([]int{0, 0, 1, 2}).Draw(rt, "selfLoops")
 		grid := []float64{36, 100, 120, 180, 1e6}
 		origins := []float64{-1e6, 0, 96, 1e6}
 		d.Layout.Default = rapid.IntRange(0, 2).Draw(rt, "defaultLayout") == 0
@@ -96,6 +113,9 @@ func TestC19LayoutBranching(t *testing.T) {
 		}
 		if f.Sub > 0 {
 			cls = append(cls, "subProcess")
+		}
+		if d.SelfLoops > 0 {
+			cls = append(cls, "selfLoopFlow")
 		}
 		rec.Case("TestC19LayoutBranching", hash, gws+f.Loop > 0, cls, d)
 		if sym != "" {
